@@ -275,6 +275,12 @@ def terse_tail(out, hname, n=60):
 
 def run_units(sel, tier, prop, keep=False, jobs=None):
     t_start = time.time()
+    sel_eff = []
+    for u in sel:
+        if tier == "thorough" and u.get("thorough_harnesses"):
+            u = dict(u, harnesses=u["harnesses"] + u["thorough_harnesses"])
+        sel_eff.append(u)
+    sel = sel_eff
     known = load_known()
     jobs = jobs or int(os.environ.get("VERIF_JOBS", "10"))
     timeout_s = int(os.environ.get("VERIF_UNIT_TIMEOUT", "240" if tier == "quick" else "1800"))
